@@ -912,6 +912,20 @@ func checkQLit(c qlitCase) string {
 	if p, ok := new(big.Int).SetString(string(b), 10); !ok || p.Cmp(want) != 0 {
 		return fmt.Sprintf("query literal %s prints as %s", c.Lit, b)
 	}
+	// the same digits as a string through tonumber, and in arithmetic
+	for _, q := range []string{"\"" + c.Lit + "\" | tonumber", c.Lit + " + 0", "-(-" + c.Lit + ")", "[" + c.Lit + "] | .[0]", "{a: " + c.Lit + "} | .a", c.Lit + " | . * 1", "\"" + c.Lit + "\" | tonumber | . - 0"} {
+		code, err := run.Compile(q)
+		if err != nil {
+			return q + ": " + err.Error()
+		}
+		res := run.Exec(code, nil, 0, 10)
+		if res.Err != nil || len(res.Vals) != 1 {
+			return fmt.Sprintf("%s: err=%v outputs=%s", q, res.Err, univ.ShowAll(res.Vals))
+		}
+		if g, ok := exact(res.Vals[0]); !ok || g.Cmp(want) != 0 {
+			return fmt.Sprintf("%s evaluates to %s, want %s", q, univ.Show(res.Vals[0]), want)
+		}
+	}
 	return ""
 }
 
@@ -1244,6 +1258,8 @@ func TestC10(t *testing.T) {
 	rec.Rapid(t, "qlit", rec.Scale(5000, 200000), func(t *rapid.T) {
 		x := genBig().Draw(t, "x")
 		c := qlitCase{Lit: new(big.Int).Abs(x).String()}
+		// jq's number syntax allows leading zeros (decimal, never octal)
+		c.Lit = strings.Repeat("0", rapid.SampledFrom([]int{0, 0, 1, 2, 3, 7}).Draw(t, "zeros")) + c.Lit
 		rec.Eval()
 		if !fits(x) || nearEdge(x) {
 			rec.NT("qlit/" + c.Lit)
